@@ -6,10 +6,18 @@ import cont
 
 MODEL_TARGETS = ["spec/FileSpec.vo", "model/Container.vo"]
 COQ_TARGETS = ["props/C06.vo"]
-THEOREMS = [("C06", [])]
-PROOF_FILES = ["props/C06.v"]
-TRUSTED_BASE = []
-ASSUMPTIONS = []
+THEOREMS = [("C06", ["C06_grammar", "C06_layout", "C06_long", "C06_long_is_crate"])]
+PROOF_FILES = ["proofs/ContainerProofs.v", "props/C06.v"]
+TRUSTED_BASE = [
+    "Coq 8.16.1 kernel; no axioms (Print Assumptions: closed); no native_compute",
+    "extraction (ExtrOcamlBasic only) + ocaml/driver.ml (parsing/printing); Rust harness avrodrive",
+    "spec/FileSpec.v transcribes the container layout of the Avro specification; its extracted parser judges the crate's files",
+    "second implementation: apache-avro 0.17 (harness commands apache_read / apache_write); Python zlib/bz2/lzma decode deflate/bzip2/xz block data independently"
+]
+ASSUMPTIONS = [
+    "compression libraries, crc32fast are outside the model: framing and interoperability of compressed blocks are checked on the crate (reference parser + independent decoders + apache-avro), not proved",
+    "apache-avro limitations excluded from the comparison: zero-byte datums in compressed blocks, map entry order, leading-dot / empty-namespace spellings"
+]
 
 def decompress(family, data):
     if family == "null":
